@@ -77,7 +77,7 @@ class Search:
                     pops.append(n)
                 elif nm in ('push', 'push_back', 'emplace', 'emplace_back'):
                     pushes.append(n)
-                elif nm in ('empty', 'begin', 'end', 'size', 'reserve', 'capacity', 'cbegin', 'cend'):
+                elif nm in ('empty', 'begin', 'end', 'size', 'reserve', 'capacity', 'cbegin', 'cend', 'back'):
                     pass
                 else:
                     self.unknown.append('unmodelled worklist operation %s at %s' % (nm, f.nloc(n['i'])))
